@@ -23,6 +23,8 @@
 //     periods, HISTORY OF) runs in five phases: inside the open tx, after COMMIT, after creating the late
 //     indexes, after close + reopen, reopened with a 2-row sort buffer and DISTINCT spill threshold; on every
 //     twin, with the default plan and with USE INDEX ON every index that shares a column with the query.
+//     Histories of the deepest level get the core catalogue only (scans, WHERE atoms, COUNT, ORDER BY, GROUP BY
+//     / aggregates, periods, HISTORY OF; no AND/OR pairs, LIMIT, DISTINCT, joins, subqueries, small buffers).
 //
 // Oracles: (1) every variant of a query group returns the same multiset of rows as the reference (t_pk,
 // default plan, same phase) — the same LIST when the ORDER BY is total — error vs success included;
@@ -297,6 +299,8 @@ type query struct {
 	hashResidual bool     // JOIN ... ON equi AND <conjunct over both tables> served by the hash join
 	phases       int
 	refOnly      bool   // only on t_pk (TLP helper)
+	core         bool   // part of the core catalogue run on the deepest histories
+	neg          bool   // NOT (atom): full scan + post-filter on any index, forced variants only after commit on t_ix
 	pred         string // WHERE predicate of a plain row query (TLP bookkeeping)
 }
 
@@ -343,6 +347,11 @@ func buildQueries(depth int) []*query {
 		q.nzConst = strings.Contains(rest, "@nz")
 		q.usesF = q.usesF || fRe.MatchString(rest) || q.nzConst
 		q.hashResidual = strings.Contains(q.tmpl, " JOIN {Y} y{IY} ON ") && strings.Contains(q.tmpl, " AND y.id <> x.id")
+		switch q.cls {
+		case "scan", "where", "count", "order", "group", "aggregate", "period", "history", "tlp1":
+			q.core = true
+		}
+		q.neg = q.cls == "where" && strings.HasPrefix(q.pred, "NOT ")
 		if q.forced {
 			for _, ix := range indexes {
 				for _, cn := range strings.Split(strings.Trim(ix, "()"), ", ") {
@@ -376,7 +385,7 @@ func buildQueries(depth int) []*query {
 		for _, p := range []string{a, "NOT (" + a + ")"} {
 			add(&query{tmpl: "SELECT " + cols + " FROM {T}{IX} WHERE " + p, cls: "where", forced: true, pred: p})
 		}
-		add(&query{tmpl: "SELECT " + cols + " FROM {T} WHERE (" + a + ") IS NULL", cls: "tlp", refOnly: true, phases: phCommitted})
+		add(&query{tmpl: "SELECT " + cols + " FROM {T} WHERE (" + a + ") IS NULL", cls: "tlp1", refOnly: true, phases: phCommitted})
 		add(&query{tmpl: "SELECT COUNT(*) FROM {T}{IX} WHERE " + a, cls: "count", forced: true})
 	}
 	add(&query{tmpl: "SELECT COUNT(*) FROM {T}{IX}", cls: "count", forced: true})
@@ -505,7 +514,7 @@ func buildQueries(depth int) []*query {
 
 var tlpPreds []string
 
-var perHistCap = 25
+const perHistCap = 25 // violations kept per history and class
 
 // ---- exploration of one history ----------------------------------------------------------------------------
 
@@ -527,6 +536,8 @@ type hist struct {
 	txOf  map[string][]uint64 // table -> tx id in which statement k was applied
 	refs  map[string]map[string]*result
 	refQ  map[string]string
+	core  bool // deepest level: core catalogue only
+	abort bool // time budget reached in the middle of the catalogue: the history does not count
 	viols []viol
 	diffs []diff
 	nq    int64
@@ -630,13 +641,13 @@ func (h *hist) runPhase(qs []*query, phase int, pname string, tables []string, m
 		h.refs[pname] = refs
 	}
 	for _, q := range qs {
-		if q.phases&phase == 0 {
+		if q.phases&phase == 0 || (h.core && (!q.core || phase == phSmall)) {
 			continue
 		}
 		type variant struct{ x, ix, y, iy string }
 		var vs []variant
 		ixOf := func(t string) []string {
-			if t == "t_pk" || !q.forced || phase == phSmall || (phase == phReopen && q.cls != "scan" && q.cls != "count" && q.cls != "period") {
+			if t == "t_pk" || !q.forced || phase == phSmall || (phase == phReopen && q.cls != "scan" && q.cls != "period") || (q.neg && (phase != phCommitted || t != "t_ix")) {
 				return []string{""}
 			}
 			return append([]string{""}, q.rel...)
@@ -658,14 +669,17 @@ func (h *hist) runPhase(qs []*query, phase int, pname string, tables []string, m
 				if must != "" && x != must && y != must {
 					continue
 				}
-				if len(tables) == 3 && x != y && !(x == "t_pk" && y == "t_ix") && !(x == "t_ix" && y == "t_late") {
-					continue // reopened: the three self joins, pk x ix and ix x late
+				if len(tables) == 3 && x != y && !(x == "t_pk" && y == "t_ix") {
+					continue // reopened: the three self joins and pk x ix
 				}
 				vs = append(vs, variant{x, "", y, ""})
-				if x == "t_pk" && y != "t_pk" && strings.Contains(q.tmpl, "{IY}") && phase != phTx {
+				if x == "t_pk" && y != "t_pk" && strings.Contains(q.tmpl, "{IY}") && phase == phCommitted {
 					vs = append(vs, variant{x, "", y, "(a)"}, variant{x, "", y, "(b)"})
 				}
 			}
+		}
+		if h.abort = h.abort || (!replaying && c.Expired()); h.abort {
+			return
 		}
 		for _, vr := range vs {
 			s, ok := h.instantiate(q, vr.x, vr.ix, vr.y, vr.iy)
@@ -739,6 +753,9 @@ func (h *hist) tlp() {
 	for _, p := range tlpPreds {
 		rp, rn := g(p), g("NOT ("+p+")")
 		ru := base["SELECT "+cols+" FROM {T} WHERE ("+p+") IS NULL"]
+		if h.core && (rp == nil || ru == nil) {
+			continue // AND/OR pairs are not part of the core catalogue
+		}
 		if all == nil || rp == nil || rn == nil || ru == nil {
 			panic("tlp bookkeeping: " + p)
 		}
@@ -755,10 +772,11 @@ func (h *hist) tlp() {
 }
 
 var (
-	nHist, nCanon, nQueries, nDMLFail, nDMLNoop int64
-	stateMu                                     sync.Mutex
-	states                                      = map[string]bool{}
-	refErrs                                     = map[string]string{}
+	nHist, nCanon, nCore, nAborted, nQueries, nDMLFail, nDMLNoop int64
+	replaying                                                    bool
+	stateMu                                                      sync.Mutex
+	states                                                       = map[string]bool{}
+	refErrs                                                      = map[string]string{}
 )
 
 // runDML executes the history statement by statement on all twins (autocommit) and checks twin agreement.
@@ -799,15 +817,12 @@ func runDML(path []int, name string, out *[]viol) (canonical bool, content strin
 	return canonical, content
 }
 
-func explore(qs []*query, path []int) {
+func explore(qs []*query, path []int, core bool) {
 	name := histName(path)
 	var viols []viol
 	defer func() {
 		for _, x := range viols {
-			if f := os.Getenv("C11_VERBOSE"); f != "" && strings.Contains(x.sig, f) {
-				fmt.Println("SIG", x.sig, "\n   ", strings.ReplaceAll(x.detail, "\n", "\n    "))
-			}
-			c.Violate(lib.Violation{Sig: x.sig, Detail: x.detail, Replay: map[string]any{"path": path}})
+			c.Violate(lib.Violation{Sig: x.sig, Detail: x.detail, Replay: map[string]any{"path": path, "core": core}})
 		}
 	}()
 	atomic.AddInt64(&nHist, 1)
@@ -818,14 +833,23 @@ func explore(qs []*query, path []int) {
 	if !canonical {
 		return
 	}
-	atomic.AddInt64(&nCanon, 1)
 	dir := lib.Scratch("c11")
 	defer os.RemoveAll(dir)
-	h := &hist{path: path, name: name, nz: wroteNegZero(path), v: openEnv(dir, false), txOf: map[string][]uint64{}, refs: map[string]map[string]*result{}, refQ: map[string]string{}, npc: map[string]int{}}
+	h := &hist{path: path, name: name, core: core, nz: wroteNegZero(path), v: openEnv(dir, false), txOf: map[string][]uint64{}, refs: map[string]map[string]*result{}, refQ: map[string]string{}, npc: map[string]int{}}
 	defer func() { h.v.st.Close() }()
 	defer func() {
+		if h.abort {
+			atomic.AddInt64(&nAborted, 1)
+			return
+		}
 		h.classify()
 		viols = append(viols, h.viols...)
+		atomic.AddInt64(&nCanon, 1)
+		if core {
+			atomic.AddInt64(&nCore, 1)
+		}
+		atomic.AddInt64(&nQueries, h.nq)
+		c.Distinct(name)
 	}()
 	h.v.setup()
 	for k, o := range path {
@@ -875,10 +899,11 @@ func explore(qs []*query, path []int) {
 		h.v = openEnv(dir, small)
 		h.runPhase(qs, []int{phReopen, phSmall}[i], []string{"reopen", "small"}[i], []string{"t_pk", "t_ix", "t_late"}, "")
 	}
+	if h.abort {
+		return
+	}
 	h.tlp()
 	h.comparePhases(qs)
-	atomic.AddInt64(&nQueries, h.nq)
-	c.Distinct(name)
 	stateMu.Lock()
 	for g, r := range h.refs["committed"] {
 		if r.err != "" {
@@ -900,19 +925,15 @@ func main() {
 	if c.Thorough() {
 		maxDepth = 4
 	}
-	if d := os.Getenv("C11_CAP"); d != "" {
-		fmt.Sscan(d, &perHistCap)
-	}
-	if d := os.Getenv("C11_DEPTH"); d != "" {
-		fmt.Sscan(d, &maxDepth)
-	}
 	qs := buildQueries(maxDepth)
 	if c.ReplayPath != "" {
 		var r struct {
 			Path []int `json:"path"`
+			Core bool  `json:"core"`
 		}
 		c.LoadReplay(&r)
-		explore(qs, r.Path)
+		replaying = true
+		explore(qs, r.Path, r.Core)
 		c.AddEvals(nQueries)
 		c.AddStates(1, 1)
 		c.Finish("replay of one recorded history", false)
@@ -930,10 +951,17 @@ func main() {
 		return
 	}())
 	c.Set("query_templates", len(qs))
+	nCoreT := 0
+	for _, q := range qs {
+		if q.core {
+			nCoreT++
+		}
+	}
+	c.Set("query_templates_core", nCoreT)
 	c.Set("query_groups", len(groups))
 	c.Set("query_templates_by_class", perCls)
 	done := 0
-	explore(qs, nil)
+	explore(qs, nil, false)
 	for d := 1; d <= maxDepth && !c.Expired(); d++ {
 		n := 1
 		for i := 0; i < d; i++ {
@@ -950,23 +978,27 @@ func main() {
 				path[k] = i % len(ops)
 				i /= len(ops)
 			}
-			explore(qs, path)
+			explore(qs, path, d == maxDepth && d > 2)
 		})
-		if skipped > 0 {
-			c.CapHit(fmt.Sprintf("time budget reached at depth %d: %d of %d histories not explored", d, skipped, n))
+		if skipped > 0 || nAborted > 0 {
+			c.CapHit(fmt.Sprintf("time budget reached at depth %d: %d of %d histories not started, %d abandoned in the middle of the query catalogue", d, skipped, n, nAborted))
 			break
 		}
 		done = d
 	}
+	if done < maxDepth && nAborted == 0 && c.Expired() {
+		c.CapHit(fmt.Sprintf("time budget reached after depth %d", done))
+	}
 	c.Set("depth_completed", done)
 	c.Set("depth_target", maxDepth)
 	c.Set("histories", nHist)
-	c.Set("canonical_histories_fully_queried", nCanon)
+	c.Set("canonical_histories_queried", nCanon)
+	c.Set("canonical_histories_queried_with_core_catalogue_only", nCore)
 	c.Set("distinct_table_contents", len(states))
 	c.Set("dml_statements_failing_identically", nDMLFail)
 	c.Set("dml_statements_without_effect", nDMLNoop)
 	c.Set("query_executions", nQueries)
-	var re []string
+	re := []string{}
 	for g, e := range refErrs {
 		re = append(re, g+" => "+e)
 	}
@@ -974,5 +1006,5 @@ func main() {
 	c.Set("query_groups_failing_on_every_plan", re)
 	c.AddEvals(nQueries)
 	c.AddStates(nCanon, nHist)
-	c.Finish(fmt.Sprintf("every DML history over the %d-statement alphabet up to depth_completed on three twin tables (error/content agreement after every statement); for every canonical history (all statements effective = distinct physical state) %d query templates in %d equivalence groups x {t_pk, t_ix, t_late} x {default plan, USE INDEX ON each of %d indexes} x {open tx, committed, late indexes, reopened, reopened with 2-row sort buffer}: same multiset (list under a total ORDER BY) as the t_pk reference, sortedness under TypedValue.Compare, TLP partition; distinct = canonical histories", len(ops), len(qs), len(groups), len(indexes)), done == maxDepth)
+	c.Finish(fmt.Sprintf("every DML history over the %d-statement alphabet up to depth_completed on three twin tables (error/content agreement after every statement); for every canonical history (all statements effective = distinct physical state) below the deepest level %d query templates in %d equivalence groups, at the deepest level the %d core templates (scans, WHERE atoms, COUNT, ORDER BY, GROUP BY/aggregates, periods, HISTORY OF), x {t_pk, t_ix, t_late} x {default plan, USE INDEX ON each relevant index of %d} x {open tx, committed, late indexes, reopened, reopened with 2-row sort buffer}: same multiset (list under a total ORDER BY) as the t_pk reference of the phase, same reference in every phase, sortedness under TypedValue.Compare, TLP partition; distinct = canonical histories", len(ops), len(qs), len(groups), nCoreT, len(indexes)), done == maxDepth)
 }
